@@ -670,8 +670,18 @@ class C16(Property):
     LIVE_FILES = ['/bv/c16/m%d.py', '/bv c16/d\u00e9 %d/mod.py', 'rel%d.py', '<bv-gen-%d>', 'C:\\bv\\m%d.py',
                   '/bv/"q%d", line 5, in z.py']
     DISK_FILES = ['disk%d.py', 'd \u00e9 %d/mod.py', 'sub%d/a"b, line 5, in z.py']
+    # unusual shapes of a code object's file name: names of bytecode files (a sourceless module compiled with
+    # py_compile(..., dfile='x.pyc'), compile(src, 'x.pyc', 'exec')), other suffixes and cases, names that only end in
+    # the letters c / o, pseudo names, relative names, spaces / quotes / non-ASCII, a bare number
+    ODD_FILES = ['/bv/c16/m%d.pyc', 'job%d.pyo', '/bv/c16/M%d.PY', '/bv/c16/m%d.PYC', 'w%d.pyw', '/bv/c16/m%dc', '/bv/c16/mo%do',
+                 '/bv/c16/m%d.pyco', '/bv/c16/m%d.py.pyc', '/bv/c16/m%d.pyc.py', '<m%d.pyc>', '<frozen bv%d>', './rel%d.py',
+                 '../up%d.pyc', "/bv/it's %d.py", '/bv/c16/m%d.py ', ' m%d.py', '%d', '.pyc%d', 'm%d.pyc\u00e9', '/bv/\u65e5%d.pyo',
+                 '/bv/c16/m%d.p', 'x%d.so', '/bv/c16/m%d.py?x=.pyc']
+    ODD_DISK_FILES = ['disk%d.pyc', 'opt%d.pyo', 'DISK%d.PY', 'diskc%dc']
     LIVE_KINDS = ['call', 'call', 'lambda', 'method', 'gen', 'exec', 'eval', 'rec', 'multi', 'comp', 'deco', 'prop',
-                  'reraise', 'reraise', 'async', 'rec', 'rec2', 'recalt']
+                  'reraise', 'reraise', 'async', 'rec', 'rec2', 'recalt', 'rec3', 'rec3h', 'recgx', 'mutlam', 'mutual']
+    # link kinds that produce runs of entries: 'n' = number of recursive calls
+    REC_KINDS = ('rec', 'rec2', 'recalt', 'rec3', 'rec3h', 'recgx', 'mutlam', 'mutual')
     # how an intermediate function hands an exception it caught on to its caller
     REHOW = ['as_e', 'bare', 'wtb', 'trim', 'after', 'nested', 'loop', 'throw', 'faketb', 'finally']
     BUILTIN_EXC = ['ValueError', 'KeyError', 'TypeError', 'RuntimeError', 'OSError', 'ZeroDivisionError',
@@ -695,7 +705,9 @@ class C16(Property):
     def random_disk(self, m, i):
         rng = self.rng
         m['reg'] = 'disk'
-        m['file'] = rng.choice(self.DISK_FILES) % i
+        m['file'] = rng.choice(self.DISK_FILES + self.ODD_DISK_FILES) % i
+        if rng.random() < 0.3:
+            m['decoy'] = 1
         m['v1'] = rng.choice(self.V1S)
         m['prime'] = rng.choice(self.PRIMES)
         m['mt'] = 'same' if rng.random() < 0.25 else 'differ'
@@ -709,8 +721,10 @@ class C16(Property):
         rng = self.rng
         kind = rng.choice(self.LIVE_KINDS)
         ln = {'m': rng.randrange(nm), 'kind': kind}
-        if kind in ('rec', 'rec2', 'recalt'):
+        if kind in self.REC_KINDS:
             ln['n'] = rng.choice([0, 1, 2, 3, 4, 5, 9]) if not big else rng.choice([2, 3, 4, 40])
+        if kind == 'eval' and rng.random() < 0.5:
+            ln['cf'] = rng.choice(self.ODD_FILES) % rng.randrange(3)
         if kind in ('call', 'lambda', 'exec'):
             ln['pad'] = rng.choice(['    ', '  ', '\t', '        '])
             ln['tail'] = rng.choice(['', '', '  # c', '   ', ' \t'])
@@ -725,7 +739,7 @@ class C16(Property):
         nm = rng.randint(1, 3)
         mods = []
         for i in range(nm):
-            m = {'file': rng.choice(self.LIVE_FILES) % i,
+            m = {'file': rng.choice(self.LIVE_FILES if rng.random() < 0.6 else self.ODD_FILES) % i,
                  'name': rng.choice(['bvm%d' % i, 'pkg.bvm%d' % i, '__main__', 'builtins']) if rng.random() < 0.5
                  else rng.choice(self.MOD_NAMES),
                  'reg': rng.choice(['cache', 'cache', 'loader', 'none'])}
@@ -741,8 +755,10 @@ class C16(Property):
             mods.append(m)
         depth = rng.randint(0, 6) if not big else rng.randint(10, 30)
         links = [self.random_link(nm, big) for _ in range(depth)]
-        kind = rng.choice(['builtin', 'builtin', 'top', 'top', 'nested', 'inner', 'strsub', 'modattr', 'badstr'])
+        kind = rng.choice(['builtin', 'builtin', 'top', 'top', 'nested', 'inner', 'strsub', 'modattr', 'badstr', 'odd'])
         exc = {'kind': kind, 'm': rng.randrange(nm), 'args': rng.choice(self.LIVE_ARGS)}
+        if kind == 'odd':
+            exc['odd'] = rng.choice(self.ODDS)
         if kind == 'badstr':
             exc['inner'] = rng.choice(['ZeroDivisionError', 'ValueError', 'TypeError', 'Exception', 'RecursionError'])
         if kind == 'builtin':
@@ -760,6 +776,10 @@ class C16(Property):
             case['skip'] = rng.choice([1, 1, 2, 3])
         if rng.random() < 0.3:
             case['seq'] = rng.choice(['dict', 'build'])
+        if rng.random() < 0.3:
+            case['af'] = rng.choice(['kw', 'pos', 'stderr'])
+        if rng.random() < 0.15:
+            case['pf'] = 1
         if rng.random() < (0.5 if session else 0.2):
             case['exc'] = dict(self.random_capture(nm, False), m=exc['m'])
             case['prior'] = [self.random_capture(nm, True) for _ in range(rng.randint(1, 3))]
@@ -778,6 +798,38 @@ class C16(Property):
         pin = {'file': '/bv/c16/m0.py', 'name': 'bvm0', 'reg': 'cache'}
         call = {'m': 0, 'kind': 'call'}
         lam = {'m': 0, 'kind': 'lambda'}
+        # recursion through one line with several call sites / several code objects on it; mutual recursion: run
+        # lengths around the interpreter's cut-off of 3 (n recursive calls = n + 1 entries)
+        for kind in ('rec3', 'rec3h', 'recgx', 'mutlam', 'mutual'):
+            for n in (2, 3, 4, 5, 8):
+                rec = {'m': 0, 'kind': kind, 'n': n}
+                yield case([pin], [rec])
+                yield case([pin], [call, rec, lam], order='s', limit=n + 1)
+            yield case([pin], [{'m': 0, 'kind': kind, 'n': 7}, {'m': 0, 'kind': kind, 'n': 4}], tblimit=9)
+            yield case([pin], [{'m': 0, 'kind': kind, 'n': 6}], skip=2, seq='build')
+        # unusual shapes of the code's file name
+        for j, f in enumerate(self.ODD_FILES):
+            for reg in ('cache', 'none', 'loader'):
+                yield case([{'file': f % 0, 'name': 'bvm0', 'reg': reg}], [call, lam], order='bs'[j % 2])
+            yield case([pin], [call, {'m': 0, 'kind': 'eval', 'cf': f % 0}, lam], order='sb'[j % 2])
+            yield case([pin, {'file': f % 1, 'name': 'bvm1', 'reg': 'cache'}], [{'m': 1, 'kind': 'rec', 'n': 4}, call],
+                       exc={'kind': 'top', 'm': 1, 'args': ['a: b']})
+        for f in self.ODD_DISK_FILES + self.DISK_FILES[:1]:
+            for decoy in (0, 1):
+                for prime in ('none', 'getlines'):
+                    yield case([{'file': f % 0, 'name': 'plug', 'reg': 'disk', 'v1': 'retag' if prime != 'none' else 'none',
+                                 'prime': prime, 'mt': 'differ', 'gone': 0, 'ldr': 0, 'decoy': decoy}], [call, lam])
+        # every argument form of the entry points; failing calls first; exception objects / classes with unusual
+        # special methods
+        for af in ('kw', 'pos', 'stderr'):
+            for limit in (None, 1):
+                yield case([pin], [call, lam], limit=limit, af=af)
+                yield case([pin], [call], limit=limit, af=af, pf=1, order='s')
+        for odd in self.ODDS:
+            for args in ([], ['x']):
+                yield case([pin], [call], exc={'kind': 'odd', 'm': 0, 'args': args, 'odd': odd})
+            yield case([pin], [], exc={'kind': 'odd', 'm': 0, 'args': ['x'], 'odd': odd},
+                       prior=[{'kind': 'same', 'args': ['y: z'], 'via': 'ep'}, {'kind': 'odd', 'odd': odd, 'args': ['w'], 'via': 'pe'}])
         for how in self.REHOW:
             for n in ([0, 1, 2, 3, 4] if how == 'loop' else [None]):
                 rr = {'m': 0, 'kind': 'reraise', 'how': how}
@@ -866,7 +918,12 @@ class C16(Property):
         for c in self.session_family(case, pin, call):
             yield c
 
+    # (a __bool__ that raises is not generated: the traceback module itself fails on it, there is no reference)
+    ODDS = ['falsy', 'eqall', 'unhash', 'meta']
+
     SESSION_PAIRS = [
+        ({'kind': 'odd', 'odd': 'meta', 'cname': 'MetaA'}, {'kind': 'odd', 'odd': 'meta', 'cname': 'MetaB'}),   # the classes compare equal
+        ({'kind': 'odd', 'odd': 'eqall', 'cname': 'EqA'}, {'kind': 'odd', 'odd': 'eqall', 'cname': 'EqB'}),   # the instances compare equal
         # (earlier capture, later capture): what the two classes have in common
         ({'kind': 'inner', 'outer': 'Lexer', 'cname': 'Error'}, {'kind': 'inner', 'outer': 'Parser', 'cname': 'Error'}),
         ({'kind': 'nested', 'outer': 'mk_a', 'cname': 'LocalErr'}, {'kind': 'nested', 'outer': 'mk_b', 'cname': 'LocalErr'}),
@@ -910,8 +967,10 @@ class C16(Property):
 
     def random_capture(self, nm, prior):
         rng = self.rng
-        kind = rng.choice(['builtin', 'top', 'nested', 'inner', 'strsub', 'modattr', 'badstr'] + (['same', 'same'] if prior else []))
+        kind = rng.choice(['builtin', 'top', 'nested', 'inner', 'strsub', 'modattr', 'badstr', 'odd'] + (['same', 'same'] if prior else []))
         c = {'kind': kind, 'args': rng.choice(self.LIVE_ARGS)}
+        if kind == 'odd':
+            c['odd'] = rng.choice(self.ODDS)
         if kind == 'builtin':
             c['name'] = rng.choice(self.BUILTIN_EXC)
         elif kind != 'same':
@@ -965,6 +1024,20 @@ class C16(Property):
             L += ['class %s(Exception):' % cn, '    def __str__(self):',
                   '        raise %s("str() of the exception raises")' % exc.get('inner', 'ZeroDivisionError')]
             return cn
+        if k == 'odd':
+            # classes / instances with unusual __bool__ / __len__ / __eq__ / __hash__ (what a memo or a truth test
+            # inside the reporting code would stumble over)
+            cn, o = exc.get('cname', 'OddErr'), exc.get('odd', 'falsy')
+            if o == 'meta':
+                L += ['class OddMeta%s(type):' % tag, '    def __eq__(a, b):', '        return True', '    def __hash__(a):',
+                      '        return 7', 'class %s(Exception, metaclass=OddMeta%s):' % (cn, tag), '    pass']
+            else:
+                L += ['class %s(Exception):' % cn] + {
+                    'falsy': ['    def __bool__(self):', '        return False', '    def __len__(self):', '        return 0'],
+                    'eqall': ['    def __eq__(self, other):', '        return True', '    def __hash__(self):', '        return 1'],
+                    'unhash': ['    __hash__ = None'],
+                }[o]
+            return cn
         if k == 'modattr':
             cn = exc.get('cname', 'ModErr')
             L += ['class %s(Exception):' % cn, '    pass', '%s.__module__ = %r' % (cn, exc['mod'])]
@@ -995,7 +1068,7 @@ class C16(Property):
                 L += ['def fn%d():' % i, '%sexec("R[%d]()", {"R": R})%s' % (pad, i + 1, tail), 'R[%d] = fn%d' % (i, i)]
             elif kind == 'eval':
                 L += ['def fn%d():' % i,
-                      '    return eval(compile("\\n\\n" + "R[%d]()", "<bv eval %d>", "eval"), {"R": R})' % (i + 1, i),
+                      '    return eval(compile("\\n\\n" + "R[%d]()", %r, "eval"), {"R": R})' % (i + 1, ln.get('cf', '<bv eval %d>' % i)),
                       'R[%d] = fn%d' % (i, i)]
             elif kind == 'rec':
                 L += ['def fn%d(n=%d):' % (i, ln.get('n', 1)), '    if n:', '        return fn%d(n - 1)' % i,
@@ -1004,6 +1077,26 @@ class C16(Property):
                 # recursion through a def and a lambda on ONE line: consecutive entries share file and line, not the name
                 L += ['def fn%d(n=%d): return (lambda: fn%d(n - 1) if n else %s())()' % (i, ln.get('n', 1), i, nxt),
                       'R[%d] = fn%d' % (i, i)]
+            elif kind in ('rec3', 'rec3h'):
+                # recursion through ONE line with two call sites on it, taken in turn ('rec3') or the first for the
+                # outer half of the run and the second for the inner half ('rec3h'): consecutive entries share file,
+                # line and name and differ only in the instruction offset (tb_lasti)
+                n0 = ln.get('n', 1)
+                cond = 'n % 2' if kind == 'rec3' else 'n > %d' % (n0 // 2)
+                L += ['def fn%d(n=%d): return fn%d(n - 1) if %s else (fn%d(n - 1) if n else %s())' % (i, n0, i, cond, i, nxt),
+                      'R[%d] = fn%d' % (i, i)]
+            elif kind == 'recgx':
+                # recursion through a generator expression on the line of the def
+                L += ['def fn%d(n=%d): return next(fn%d(n - 1) for _ in (1,)) if n else %s()' % (i, ln.get('n', 1), i, nxt),
+                      'R[%d] = fn%d' % (i, i)]
+            elif kind == 'mutlam':
+                # two lambdas on ONE line calling each other: two code objects, the same file, line and name
+                L += ['A%d = lambda n=%d: B%d(n - 1) if n else %s(); B%d = lambda n=0: A%d(n - 1) if n else %s()'
+                      % (i, ln.get('n', 1), i, nxt, i, i, nxt), 'R[%d] = A%d' % (i, i)]
+            elif kind == 'mutual':
+                # a -> b -> a, each call on one line
+                L += ['def fa%d(n=%d): return fb%d(n - 1) if n else %s()' % (i, ln.get('n', 1), i, nxt),
+                      'def fb%d(n=0): return fa%d(n - 1) if n else %s()' % (i, i, nxt), 'R[%d] = fa%d' % (i, i)]
             elif kind == 'recalt':
                 # recursion from two lines in turn: consecutive entries share file and name, not the line
                 L += ['def fn%d(n=%d):' % (i, ln.get('n', 1)), '    if n % 2:', '        return fn%d(n - 1)' % i, '    if n:',
@@ -1159,6 +1252,15 @@ class C16(Property):
             os.utime(path, (t, t))
 
         disk = [i for i, m in enumerate(mods) if m['reg'] == 'disk']
+        for i in disk:
+            if mods[i].get('decoy'):
+                # neighbours of the module file whose names differ from it in the suffix only: another text
+                p = paths[i]
+                stem = os.path.splitext(p)[0]
+                for q in (p[:-1], p + 'c', p + 'o', stem + '.py', stem + '.pyc', stem + '.PY', stem):
+                    if q != p and os.path.basename(q):
+                        with open(q, 'w', encoding='utf-8') as f:
+                            f.write('# decoy line\n' * 60)
         if disk:
             vers = {i: self._versions(srcs[i], mods[i].get('v1', 'none')) for i in disk}
             texts1 = list(srcs)
@@ -1199,6 +1301,17 @@ class C16(Property):
         R = {}
         load(srcs, R)
         info = cur = None
+        if case.get('pf'):
+            # earlier calls that fail (no exception is being handled; no traceback text)
+            for bad in (lambda: tbutils.TracebackInfo.from_traceback(), lambda: tbutils.ExceptionInfo.from_current(),
+                        lambda: tbutils.ParsedException.from_string('not a traceback'),
+                        lambda: tbutils.TracebackInfo.from_traceback(tb=None, limit=0),
+                        lambda: tbutils.print_exception(None, None, None, file=io.StringIO())):
+                try:
+                    with time_limit(10):
+                        bad()
+                except (Exception, CaseTimeout):
+                    pass
         # the earlier captures of the session (exception part only: nothing here looks a source line up)
         self._prior_obs = []
         for j, pr in enumerate(case.get('prior') or []):
@@ -1419,6 +1532,43 @@ class C16(Property):
                 return False
         return i == len(lines)
 
+    @staticmethod
+    def _spoil_live(*values):
+        """what a caller may do with the values boltons handed it: empty / reorder / overwrite dicts and lists (also
+        the nested ones), overwrite the attributes of the Callpoints of a TracebackInfo and empty its frames list"""
+        def spoil(v, depth=0):
+            if depth > 6:
+                return
+            if isinstance(v, dict):
+                for x in list(v.values()):
+                    spoil(x, depth + 1)
+                for key in list(v):
+                    if not isinstance(v[key], (dict, list)):
+                        v[key] = 'spoiled' if isinstance(v[key], str) else 0
+                v['spoiled'] = True
+            elif isinstance(v, list):
+                for x in v:
+                    spoil(x, depth + 1)
+                v.reverse()
+                if v:
+                    v.pop()
+                v.append({'module_path': 'spoiled.py', 'lineno': 0, 'func_name': 'spoiled', 'line': 'spoiled()', 'lasti': 0,
+                          'module_name': 'spoiled'})
+            elif hasattr(v, 'frames') and isinstance(v.frames, list):
+                for cp in v.frames:
+                    for attr, val in (('module_path', 'spoiled.py'), ('lineno', 0), ('func_name', 'spoiled'), ('line', 'spoiled()'),
+                                      ('lasti', 0), ('module_name', 'spoiled')):
+                        try:
+                            setattr(cp, attr, val)
+                        except Exception:
+                            pass
+                del v.frames[:]
+        for v in values:
+            try:
+                spoil(v)
+            except Exception:
+                pass
+
     def run_live(self, case):
         from boltons import tbutils
         obs = {}
@@ -1503,9 +1653,38 @@ class C16(Property):
                         # to_dict; 'dict': to_dict before anything was formatted; 'build': all objects built first,
                         # then asked last-built first - instances must not share state)
                         seq = case.get('seq', 'fmt')
-                        ei = tbutils.ExceptionInfo.from_exc_info(et, ev, tb)
+                        af = case.get('af')
+                        if af == 'kw':
+                            mk_ei = lambda: tbutils.ExceptionInfo.from_exc_info(exc_type=et, exc_value=ev, traceback=tb)
+                            mk_tbi = lambda: tbutils.TracebackInfo.from_traceback(tb=tb, limit=limit)
+                        elif af == 'pos':
+                            mk_ei = lambda: tbutils.ExceptionInfo.from_exc_info(et, ev, tb)
+                            mk_tbi = lambda: tbutils.TracebackInfo.from_traceback(tb, limit)
+                        else:
+                            mk_ei = lambda: tbutils.ExceptionInfo.from_exc_info(et, ev, tb)
+                            mk_tbi = lambda: tbutils.TracebackInfo.from_traceback(tb, limit=limit)
+
+                        def do_print(lim):
+                            buf = io.StringIO()
+                            if af == 'kw':
+                                tbutils.print_exception(etype=et, value=ev, tb=tb, limit=lim, file=buf)
+                            elif af == 'pos':
+                                tbutils.print_exception(et, ev, tb, lim, buf)
+                            elif af == 'stderr':
+                                old_err, sys.stderr = sys.stderr, buf
+                                try:
+                                    if lim is None:
+                                        tbutils.print_exception(et, ev, tb)
+                                    else:
+                                        tbutils.print_exception(et, ev, tb, limit=lim, file=None)
+                                finally:
+                                    sys.stderr = old_err
+                            else:
+                                tbutils.print_exception(et, ev, tb, limit=lim, file=buf)
+                            return buf.getvalue()
+                        ei = mk_ei()
                         if seq == 'build':
-                            tbi = tbutils.TracebackInfo.from_traceback(tb, limit=limit)
+                            tbi = mk_tbi()
                             tbutils.TracebackInfo.from_traceback(tb, limit=1)
                             tbutils.ExceptionInfo.from_exc_info(KeyError, KeyError('other'), tb.tb_next or tb)
                             obs['tbi'] = tbi.get_formatted()
@@ -1517,7 +1696,7 @@ class C16(Property):
                         obs['ei_frames'] = [[f['module_path'], f['lineno'], f['func_name'], f['line']]
                                             for f in d['exc_tb']['frames']]
                         if seq != 'build':
-                            tbi = tbutils.TracebackInfo.from_traceback(tb, limit=limit)
+                            tbi = mk_tbi()
                         td = tbi.to_dict() if seq == 'dict' else None
                         obs['tbi'] = tbi.get_formatted()
                         obs['tbi_str'] = str(tbi)
@@ -1525,10 +1704,8 @@ class C16(Property):
                                              for f in (td or tbi.to_dict())['frames']]
                         obs['tbi_n'] = len(tbi)
                         for key, lim in (('print', None), ('print_lim', limit)):
-                            buf = io.StringIO()
                             try:
-                                tbutils.print_exception(et, ev, tb, limit=lim, file=buf)
-                                obs[key] = buf.getvalue()
+                                obs[key] = do_print(lim)
                             except Exception as e:
                                 obs[key] = None
                                 obs[key + '_exc'] = exc_name(e)
@@ -1544,6 +1721,36 @@ class C16(Property):
                         cei = tbutils.ContextualExceptionInfo.from_exc_info(et, ev, tb)
                         obs['cei'] = cei.get_formatted()
                         obs['cei_frames'] = frames_of(cei.tb_info)
+                        # --- the caller edits every mutable value it was handed - the dicts of to_dict(), the frames
+                        # list of the TracebackInfo and the Callpoints in it - and asks again: the object it did not
+                        # touch, and new objects built from the same exception, must say what they said before
+                        re_ = []
+
+                        def dict_frames(x):
+                            return [[f['module_path'], f['lineno'], f['func_name'], f['line']] for f in x]
+
+                        def reread(label, got, want):
+                            if got != want:
+                                re_.append([label, repr(got)[:300], repr(want)[:300]])
+                        self._spoil_live(d, td, tbi, tbi.to_dict(), cei.to_dict(), cei.tb_info)
+                        reread('ExceptionInfo.get_formatted() of the untouched object', ei.get_formatted(), obs['ei'])
+                        reread('ExceptionInfo.to_dict() of the untouched object', dict_frames(ei.to_dict()['exc_tb']['frames']),
+                               obs['ei_frames'])
+                        tbi2 = mk_tbi()
+                        reread('a second TracebackInfo.from_traceback(): get_formatted()', tbi2.get_formatted(), obs['tbi'])
+                        reread('a second TracebackInfo.from_traceback(): to_dict()', dict_frames(tbi2.to_dict()['frames']), obs['tbi_frames'])
+                        self._spoil_live(ei.to_dict(), None, ei.tb_info, tbi2.to_dict(), None, tbi2)
+                        ei.exc_type, ei.exc_msg = 'Spoiled', 'by the caller'
+                        ei2 = mk_ei()
+                        reread('a second ExceptionInfo.from_exc_info(): get_formatted()', ei2.get_formatted(), obs['ei'])
+                        reread('a second ExceptionInfo.from_exc_info(): to_dict()', dict_frames(ei2.to_dict()['exc_tb']['frames']),
+                               obs['ei_frames'])
+                        reread('a second ExceptionInfo.from_exc_info(): type, message', [ei2.exc_type, ei2.exc_msg],
+                               [obs['ei_type'], obs['ei_msg']])
+                        if obs.get('print') is not None:
+                            reread('a second print_exception()', do_print(None), obs['print'])
+                        if re_:
+                            obs['re'] = re_
                 except CaseTimeout:
                     obs['exc'] = 'CaseTimeout'
                 except Exception as e:
@@ -1883,6 +2090,12 @@ class C16(Property):
         if xf != sf or not self._same(obs['cei'], std, fl, False):
             return Failure('format' if xf == sf else 'frames', 'ContextualExceptionInfo: frames %r, text %r; interpreter: %r, %r'
                            % (xf, obs['cei'], sf, std))
+        if obs.get('re'):
+            label, got, want = obs['re'][0]
+            return Failure('reread', '%s = %s after the caller edited the values it had been handed (to_dict() results, the '
+                           'frames list and Callpoints of another object); before: %s' % (label, got, want))
+        if case.get('af'):
+            st['live_argform_' + case['af']] = st.get('live_argform_' + case['af'], 0) + 1
         # the interpreter's own text through the parser (first clause on real texts)
         p = obs['parsed']
         if not self._parsed_ok(p, obs):
@@ -2089,7 +2302,7 @@ class C16(Property):
         for i in range(len(links)):
             yield dict(case, links=links[:i] + links[i + 1:])
         for i, ln in enumerate(links):
-            if ln['kind'] in ('rec', 'rec2', 'recalt') and ln.get('n', 0) > 0:
+            if ln['kind'] in self.REC_KINDS and ln.get('n', 0) > 0:
                 yield dict(case, links=links[:i] + [dict(ln, n=ln['n'] - 1)] + links[i + 1:])
             if ln['kind'] != 'call':
                 yield dict(case, links=links[:i] + [{'m': ln['m'], 'kind': 'call'}] + links[i + 1:])
@@ -2104,8 +2317,9 @@ class C16(Property):
             yield {k: v for k, v in case.items() if k != 'tblimit'}
         if case.get('skip'):
             yield {k: v for k, v in case.items() if k != 'skip'}
-        if case.get('seq'):
-            yield {k: v for k, v in case.items() if k != 'seq'}
+        for key in ('seq', 'af', 'pf'):
+            if case.get(key):
+                yield {k: v for k, v in case.items() if k != key}
         pri = case.get('prior') or []
         for i in range(len(pri)):
             rest = pri[:i] + pri[i + 1:]
@@ -2132,7 +2346,7 @@ class C16(Property):
                 yield dict(case, mods=case['mods'][:i] + [{'file': '/bv/c16/m%d.py' % i, 'name': 'bvm', 'reg': 'cache'}]
                            + case['mods'][i + 1:])
             if m['reg'] == 'disk':
-                for key, simple in (('junk', None), ('ldr', 0), ('gone', 0), ('prime', 'getlines'), ('v1', 'retag'), ('mt', 'differ'),
+                for key, simple in (('decoy', None), ('junk', None), ('ldr', 0), ('gone', 0), ('prime', 'getlines'), ('v1', 'retag'), ('mt', 'differ'),
                                     ('file', 'disk%d.py' % i), ('name', 'bvm')):
                     if m.get(key) != simple:
                         yield mod(**{key: simple})
